@@ -602,7 +602,8 @@ Definition fmt17_ok : Prop :=
 
 (* what a node must satisfy for the property to speak about it:
    strings and member names are byte strings; a uint64 node is not negative;
-   a double printed through %.17g is finite (NaN / Infinity are not JSON);
+   a double is finite (NaN / Infinity are not JSON), also when it carries a retained text (a
+   setter or a serializer reset makes it print through %.17g);
    a retained text (json_object_new_double_s, parser) is an RFC 8259 number token *)
 Definition node_ok (v : jv) : Prop :=
   match v with
@@ -610,7 +611,7 @@ Definition node_ok (v : jv) : Prop :=
   | JStr s => Forall byte_ok s
   | JObj l => Forall (fun kv => Forall byte_ok (fst kv)) l
   | JDouble bits None => dbl_finite bits = true
-  | JDouble bits (Some t) => exists n, num_ok n = true /\ render_num n = c_str t
+  | JDouble bits (Some t) => dbl_finite bits = true /\ exists n, num_ok n = true /\ render_num n = c_str t
   | _ => True
   end.
 
@@ -655,7 +656,7 @@ Proof.
   - destruct (uint_token z Hn) as (n & H1 & H2 & H3). exists (SNum n). cbn [stx_ok render value serialize].
     rewrite H3. repeat split; auto. constructor.
   - destruct t as [t|].
-    + destruct Hn as (n & H1 & H2). exists (SNum n). cbn [stx_ok render value serialize]. repeat split; auto.
+    + destruct Hn as (_ & n & H1 & H2). exists (SNum n). cbn [stx_ok render value serialize]. repeat split; auto.
       apply (DDblText _ _ _ _ n); auto. destruct (num_val n). apply dec_eq_refl.
     + rename Hn into Hfin. destruct (Hfmt b Hfin) as (n0 & Hshape & Hr).
       destruct (double_fixup_shape fl n0 Hshape) as (n' & H1 & H2 & H3 & _).
@@ -951,7 +952,7 @@ Proof.
   - cbn [serialize]. apply sig_plain. destruct (int_token z) as (n & H1 & H2 & _). rewrite <- H2. apply num_plain, H1.
   - cbn [serialize]. apply sig_plain, dec_u_plain, Hn.
   - destruct t as [t|]; cbn [serialize].
-    + destruct Hn as (n & H1 & H2). rewrite <- H2. apply sig_plain, num_plain, H1.
+    + destruct Hn as (_ & n & H1 & H2). rewrite <- H2. apply sig_plain, num_plain, H1.
     + apply double_sig. exact Hn.
   - cbn [serialize]. apply colored_sig; [cbn; tauto|]. unfold colored, cfl, fl_ns. cbn [color]. apply quoted_sig, Hn.
   - (* arrays *)
@@ -1842,7 +1843,7 @@ Proof.
     + apply Forall_nth_upd; [exact (jv_Forall_obj _ _ G)|]. intros x Hx. cbn [snd]. apply IH, Hx.
 Qed.
 
-(* the arguments of one call, as the property admits them *)
+(* the arguments of one call, as the property allows them *)
 Definition hop_arg_ok (h : hop) : Prop :=
   match h with
   | HSetDouble _ bits => dbl_finite bits = true
@@ -1855,6 +1856,7 @@ Definition hop_arg_ok (h : hop) : Prop :=
 Lemma hop_ok h v : hop_arg_ok h -> tree_ok v -> tree_ok (hop_apply h v).
 Proof.
   intros Ha G. destruct h; cbn [hop_apply hop_arg_ok] in *; try exact G; apply jv_at_ok; try exact G; intros x Gx.
+  - destruct x as [| | | |b t| | |]; try exact Gx. destruct t; cbn in *; [split; [tauto|exact I]|exact Gx].
   - destruct x; try exact Gx. cbn. split; [exact Ha|exact I].
   - destruct x; try exact Gx; cbn; tauto.
   - destruct x; try exact Gx; cbn; tauto.
@@ -1894,4 +1896,11 @@ Theorem set_double_prints_new_value fmt17 fl level b t bits :
 Proof. reflexivity. Qed.
 (* and a deep copy prints what its source prints *)
 Theorem copy_prints_the_same fmt17 fl level v : serialize fmt17 fl level (hop_apply HCopy v) = serialize fmt17 fl level v.
+Proof. reflexivity. Qed.
+
+(* opaque userdata never reaches the text; a serializer reset prints the default text of the value *)
+Theorem userdata_is_opaque fmt17 fl level p v : serialize fmt17 fl level (hop_apply (HSetUserdata p) v) = serialize fmt17 fl level v.
+Proof. reflexivity. Qed.
+Theorem reset_prints_default fmt17 fl level b t :
+  serialize fmt17 fl level (reset_serializer_node (JDouble b t)) = double_text fmt17 fl b.
 Proof. reflexivity. Qed.
